@@ -103,8 +103,8 @@ Proof.
     - rring.
     - intros t. unfold ub. auto_derive; [exact Logic.I|ring].
     - intros t. unfold ub. poly_cont. }
-  rewrite <- I. apply RInt_le; try lra.
-  - apply speed_ex_RInt; apply (gdx_c (quad_curve _ _ _)) || apply (gdy_c (quad_curve _ _ _)).
+  rewrite <- I. apply RInt_le; [lra| | |].
+  - apply speed_ex_RInt; [apply gdx_c|apply gdy_c].
   - apply (ex_RInt_continuous ub). intros; unfold ub; poly_cont.
   - intros t Ht. unfold speed, ub, A, B. cbn.
     change (sqrt (?x ^ 2 + ?y ^ 2)) with (hyp x y).
@@ -127,8 +127,8 @@ Proof.
     - rring.
     - intros t. unfold ub. auto_derive; [exact Logic.I|ring].
     - intros t. unfold ub. poly_cont. }
-  rewrite <- I. apply RInt_le; try lra.
-  - apply speed_ex_RInt; apply (gdx_c (cubic_curve _ _ _ _)) || apply (gdy_c (cubic_curve _ _ _ _)).
+  rewrite <- I. apply RInt_le; [lra| | |].
+  - apply speed_ex_RInt; [apply gdx_c|apply gdy_c].
   - apply (ex_RInt_continuous ub). intros; unfold ub; poly_cont.
   - intros t Ht. unfold speed, ub, A, B, C. cbn.
     change (sqrt (?x ^ 2 + ?y ^ 2)) with (hyp x y).
